@@ -130,6 +130,7 @@ public:
 
 	std::string qname(const NamedDecl* d)
 	{
+		if (auto* sp = dyn_cast<ClassTemplateSpecializationDecl>(d)) return C.getRecordType(sp).getCanonicalType().getAsString(PP);
 		std::string s;
 		llvm::raw_string_ostream os(s);
 		d->printQualifiedName(os, PP);
